@@ -66,9 +66,24 @@ type CGProc struct {
 	Ops      []CGOp       `json:"ops"`
 }
 
+// CGCliStep is one `coca call` / `coca rcall` command line run against a model file.
+type CGCliStep struct {
+	Cmd    string `json:"cmd"` // call | rcall
+	Model  int    `json:"model"`
+	Root   string `json:"root"`
+	Lookup bool   `json:"lookup,omitempty"`
+	// Sparse: the model file omits empty arrays (valid JSON a user may write by hand); used for
+	// `call` only, whose command decodes into a fresh variable
+	Sparse bool `json:"sparse,omitempty"`
+}
+
 type CGScenario struct {
 	Models [][]MClass `json:"models"`
 	Procs  []CGProc   `json:"procs"`
+	// CliProcs: the CLI route. All processes share ONE working directory whose coca_reporter/
+	// persists (durable state); the steps of one process run in that OS process one after the
+	// other (what coca's own command tests do), a new process is a restart.
+	CliProcs [][]CGCliStep `json:"cli_procs,omitempty"`
 }
 
 // ---- generator ----
@@ -154,7 +169,7 @@ func genModel(t *tape.Tape, thorough bool) []MClass {
 			}
 			if t.Bool(1, 25) {
 				// names that are keywords elsewhere are ordinary method names in a model
-				name = []string{"new", "super", "this", "default", "init"}[t.Pick(5)]
+				name = []string{"new", "super", "this", "default", "init", "x", "r", "com", "p"}[t.Pick(9)] // keywords elsewhere; or equal to a package segment
 				for _, f := range c.Functions {
 					if f.Name == name {
 						name = fmt.Sprintf("m%d", j)
@@ -168,6 +183,11 @@ func genModel(t *tape.Tape, thorough bool) []MClass {
 			}
 			c.Functions = append(c.Functions, MFunc{Name: name, IsConstructor: isCtor})
 			decls = append(decls, decl{c.Package, c.NodeName, name})
+		}
+		if t.Bool(1, 20) {
+			// two methods whose names differ only in letter case, one delegating to the other
+			c.Functions = append(c.Functions, MFunc{Name: "getUrl"}, MFunc{Name: "getURL", FunctionCalls: []MCall{{c.Package, c.NodeName, "getUrl"}}})
+			decls = append(decls, decl{c.Package, c.NodeName, "getUrl"}, decl{c.Package, c.NodeName, "getURL"})
 		}
 		model = append(model, c)
 	}
@@ -324,7 +344,50 @@ func genCGScenario(t *tape.Tape, tier string) *CGScenario {
 		}
 		sc.Procs = append(sc.Procs, proc)
 	}
+	if t.Bool(1, 4) {
+		ncp := t.Int(1, 3)
+		for p := 0; p < ncp; p++ {
+			var steps []CGCliStep
+			ns := t.Int(1, 3)
+			for k := 0; k < ns; k++ {
+				mi := t.Pick(len(sc.Models))
+				st := CGCliStep{Cmd: "call", Model: mi, Root: pickRoot(t, sc.Models[mi])}
+				if t.Bool(1, 2) {
+					st.Cmd = "rcall"
+				} else {
+					st.Lookup = t.Bool(1, 3)
+					st.Sparse = t.Bool(1, 2)
+				}
+				steps = append(steps, st)
+			}
+			sc.CliProcs = append(sc.CliProcs, steps)
+		}
+	}
 	return sc
+}
+
+// sparseModel drops empty arrays from the JSON of a model.
+func sparseModel(m []MClass) interface{} {
+	var out []map[string]interface{}
+	for _, c := range m {
+		cm := map[string]interface{}{"NodeName": c.NodeName, "Package": c.Package, "Type": c.Type}
+		var fs []map[string]interface{}
+		for _, f := range c.Functions {
+			fm := map[string]interface{}{"Name": f.Name}
+			if f.IsConstructor {
+				fm["IsConstructor"] = true
+			}
+			if len(f.FunctionCalls) > 0 {
+				fm["FunctionCalls"] = f.FunctionCalls
+			}
+			fs = append(fs, fm)
+		}
+		if len(fs) > 0 {
+			cm["Functions"] = fs
+		}
+		out = append(out, cm)
+	}
+	return out
 }
 
 // ---- reference model ----
@@ -528,6 +591,101 @@ func runCG(id string, ctx *sim.RunCtx, data json.RawMessage) (*sim.Outcome, erro
 		seen[class+detail] = true
 		out.Violations = append(out.Violations, sim.Violation{Class: id + "/" + class, Detail: detail, Sig: map[string]string{"clause": class}})
 	}
+	judgeCall := func(where, dot string, ref *cgRef, root string, lookup bool) {
+		edges, err := ParseSimpleDot(dot)
+		if err != nil {
+			add("call/malformed-dot", fmt.Sprintf("%s: %v\n%s", where, err, dot))
+			return
+		}
+		rel := ref.forward(nil)
+		rev := ref.reverse()
+		// reverse part (lookup): edge caller->callee from the reverse map, callee is the root or one of its transitive callers
+		anc := reach(rev, root)
+		revOK := func(e Edge) bool {
+			if !lookup {
+				return false
+			}
+			for _, c := range rev[e.To] {
+				if c == e.From {
+					return anc[e.To]
+				}
+			}
+			return false
+		}
+		if id == "C03" {
+			if unfoldingSize(rel, root, callBudget) <= callBudget {
+				out.Probes["call-tree-fits-budget"]++
+			} else {
+				out.Probes["call-tree-exceeds-budget"]++
+			}
+			checkForward("call", edges, rel, root, revOK, func(c, d string) { add(c, where+": "+d) })
+		} else {
+			// C04 judges the reverse part of `call -l`: every direct caller present
+			got := edgeSet(edges)
+			for _, caller := range rev[root] {
+				if caller != root && !got[Edge{caller, root}] {
+					add("call-lookup/direct-caller-missing", fmt.Sprintf("%s: direct caller %q of %q has no edge in `call -l`", where, caller, root))
+				}
+			}
+		}
+	}
+	judgeRcall := func(where, dot string, m map[string][]string, ref *cgRef, root string) {
+		rev := ref.reverse()
+		// exact inverse, once per call site, declared methods only
+		for k, callers := range m {
+			if !ref.declared[k] {
+				add("rcall/map-undeclared-key", fmt.Sprintf("%s: map key %q is not a method of the project", where, k))
+			}
+			for _, c := range callers {
+				if !ref.declared[c] {
+					add("rcall/map-undeclared-caller", fmt.Sprintf("%s: caller %q of %q is not a method of the project", where, c, k))
+				}
+			}
+			if !sameMultiset(callers, rev[k]) {
+				add("rcall/map-callers-differ", fmt.Sprintf("%s: callers of %q are %v, the model has %v", where, k, sorted(callers), sorted(rev[k])))
+			}
+		}
+		for k := range rev {
+			if _, ok := m[k]; !ok {
+				add("rcall/map-key-missing", fmt.Sprintf("%s: %q is called by %v but is missing from the map", where, k, rev[k]))
+			}
+		}
+		edges, err := ParseSimpleDot(dot)
+		if err != nil {
+			add("rcall/malformed-dot", fmt.Sprintf("%s: %v\n%s", where, err, dot))
+			return
+		}
+		anc := reach(rev, root)
+		got := edgeSet(edges)
+		for e := range got {
+			ok := false
+			for _, c := range rev[e.To] {
+				if c == e.From {
+					ok = true
+				}
+			}
+			if !ok {
+				add("rcall/edge-not-in-map", fmt.Sprintf("%s: edge %q -> %q does not come from the reverse-call map (target %q)", where, e.From, e.To, root))
+			} else if !anc[e.To] {
+				add("rcall/edge-off-chain", fmt.Sprintf("%s: edge %q -> %q is on no caller chain ending at %q", where, e.From, e.To, root))
+			}
+		}
+		for _, caller := range rev[root] {
+			if caller != root && !got[Edge{caller, root}] {
+				add("rcall/direct-caller-missing", fmt.Sprintf("%s: direct caller %q of target %q has no edge", where, caller, root))
+			}
+		}
+		if len(rev[root]) > 0 {
+			out.Probes["rcall-target-has-callers"]++
+		}
+		dup := map[string]int{}
+		for _, c := range rev[root] {
+			dup[c]++
+			if dup[c] == 2 {
+				out.Probes["rcall-caller-invokes-target-twice"]++
+			}
+		}
+	}
 	var hist []string
 	judgedOnDirty := 0
 	for pi, p := range sc.Procs {
@@ -599,42 +757,7 @@ func runCG(id string, ctx *sim.RunCtx, data json.RawMessage) (*sim.Outcome, erro
 				if err := json.Unmarshal(rec.Result, &dot); err != nil {
 					return nil, sim.Harness("call result: %v", err)
 				}
-				edges, err := ParseSimpleDot(dot)
-				if err != nil {
-					add("call/malformed-dot", fmt.Sprintf("%s: %v\n%s", where, err, dot))
-					continue
-				}
-				rel := ref.forward(nil)
-				rev := ref.reverse()
-				// reverse part (lookup): edge caller->callee from the reverse map, callee is the root or one of its transitive callers
-				anc := reach(rev, op.Root)
-				revOK := func(e Edge) bool {
-					if !op.Lookup {
-						return false
-					}
-					for _, c := range rev[e.To] {
-						if c == e.From {
-							return anc[e.To]
-						}
-					}
-					return false
-				}
-				if id == "C03" {
-					if unfoldingSize(rel, op.Root, callBudget) <= callBudget {
-						out.Probes["call-tree-fits-budget"]++
-					} else {
-						out.Probes["call-tree-exceeds-budget"]++
-					}
-					checkForward("call", edges, rel, op.Root, revOK, func(c, d string) { add(c, where+": "+d) })
-				} else {
-					// C04 judges the reverse part of `call -l`: every direct caller present
-					got := edgeSet(edges)
-					for _, caller := range rev[op.Root] {
-						if caller != op.Root && !got[Edge{caller, op.Root}] {
-							add("call-lookup/direct-caller-missing", fmt.Sprintf("%s: direct caller %q of %q has no edge in `call -l`", where, caller, op.Root))
-						}
-					}
-				}
+				judgeCall(where, dot, ref, op.Root, op.Lookup)
 			case "callByFiles":
 				var r struct {
 					Dot    string `json:"dot"`
@@ -702,63 +825,106 @@ func runCG(id string, ctx *sim.RunCtx, data json.RawMessage) (*sim.Outcome, erro
 				if err := json.Unmarshal(rec.Result, &r); err != nil {
 					return nil, sim.Harness("rcall result: %v", err)
 				}
-				rev := ref.reverse()
 				if r.Callbacks != 1 {
 					add("rcall/callback-count", fmt.Sprintf("%s: reverse-call map delivered %d times", where, r.Callbacks))
 				}
-				// exact inverse, once per call site, declared methods only
-				for k, callers := range r.Map {
-					if !ref.declared[k] {
-						add("rcall/map-undeclared-key", fmt.Sprintf("%s: map key %q is not a method of the project", where, k))
-					}
-					for _, c := range callers {
-						if !ref.declared[c] {
-							add("rcall/map-undeclared-caller", fmt.Sprintf("%s: caller %q of %q is not a method of the project", where, c, k))
-						}
-					}
-					if !sameMultiset(callers, rev[k]) {
-						add("rcall/map-callers-differ", fmt.Sprintf("%s: callers of %q are %v, the model has %v", where, k, sorted(callers), sorted(rev[k])))
-					}
+				judgeRcall(where, r.Dot, r.Map, ref, op.Root)
+			}
+		}
+	}
+	// ---- the CLI route: shared working directory, durable coca_reporter/ ----
+	if len(sc.CliProcs) > 0 {
+		cwd := filepath.Join(ctx.Dir, "cli")
+		os.MkdirAll(cwd, 0755)
+		for i, m := range sc.Models {
+			if err := writeJSON(filepath.Join(cwd, fmt.Sprintf("sparse%d.json", i)), sparseModel(m)); err != nil {
+				return nil, sim.Harness("%v", err)
+			}
+			if err := writeJSON(filepath.Join(cwd, fmt.Sprintf("full%d.json", i)), m); err != nil {
+				return nil, sim.Harness("%v", err)
+			}
+		}
+		steps := 0
+		for pi, st := range sc.CliProcs {
+			proc := &sim.Proc{Schedule: sim.Canonical(), Cwd: cwd}
+			for _, s := range st {
+				file := fmt.Sprintf("full%d.json", s.Model)
+				if s.Sparse && s.Cmd == "call" {
+					file = fmt.Sprintf("sparse%d.json", s.Model)
 				}
-				for k := range rev {
-					if _, ok := r.Map[k]; !ok {
-						add("rcall/map-key-missing", fmt.Sprintf("%s: %q is called by %v but is missing from the map", where, k, rev[k]))
-					}
+				hist = append(hist, "cli-"+s.Cmd)
+				if s.Cmd == "call" {
+					// every flag is given explicitly: cobra keeps flag values between in-process runs
+					args := []string{"call", "-c", s.Root, "-d", file, fmt.Sprintf("-l=%v", s.Lookup), "-r", ""}
+					proc.Ops = append(proc.Ops, sim.Op{Op: "cli", Args: map[string]interface{}{"args": args, "read": []string{"coca_reporter/call.dot"}}})
+				} else {
+					args := []string{"rcall", "-c", s.Root, "-d", file, "-r", ""}
+					proc.Ops = append(proc.Ops, sim.Op{Op: "cli", Args: map[string]interface{}{"args": args, "read": []string{"coca_reporter/rcall.dot", "coca_reporter/rcallmap.json"}}})
 				}
-				edges, err := ParseSimpleDot(r.Dot)
-				if err != nil {
-					add("rcall/malformed-dot", fmt.Sprintf("%s: %v\n%s", where, err, r.Dot))
+			}
+			hist = append(hist, "|")
+			saved := ctx.ProcTimeout
+			ctx.ProcTimeout = 30 * time.Second
+			res, err := ctx.Run(proc)
+			ctx.ProcTimeout = saved
+			if err != nil {
+				return nil, err
+			}
+			if pi > 0 {
+				out.Faults["restart"]++
+			}
+			for si, s := range st {
+				judged := (id == "C03" && s.Cmd == "call") || (id == "C04" && (s.Cmd == "rcall" || s.Lookup))
+				where := fmt.Sprintf("CLI process %d step %d (`coca %s -c %s`, %d earlier commands left reports in this directory)", pi, si, s.Cmd, s.Root, steps)
+				steps++
+				if !res.Completed(si) {
+					if judged {
+						add("cli-"+s.Cmd+"/does-not-terminate", fmt.Sprintf("%s: process ended with %q\n%s", where, res.Ended, firstLines(res.Stderr, 6)))
+					}
+					break
+				}
+				rec := res.Records[si]
+				if si > 0 {
+					out.Faults["no-restart"]++
+				}
+				out.Faults["durable-reports-carried-over"]++
+				if !rec.OK {
+					if judged {
+						add("cli-"+s.Cmd+"/panics", fmt.Sprintf("%s panicked: %s", where, rec.Panic))
+					}
 					continue
 				}
-				anc := reach(rev, op.Root)
-				got := edgeSet(edges)
-				for e := range got {
-					ok := false
-					for _, c := range rev[e.To] {
-						if c == e.From {
-							ok = true
-						}
-					}
+				if !judged {
+					continue
+				}
+				var r struct {
+					Files map[string]string `json:"files"`
+				}
+				if err := json.Unmarshal(rec.Result, &r); err != nil {
+					return nil, sim.Harness("cli result: %v", err)
+				}
+				ref := refs[s.Model]
+				out.Probes["cli-step-judged"]++
+				if s.Cmd == "call" {
+					dot, ok := r.Files["coca_reporter/call.dot"]
 					if !ok {
-						add("rcall/edge-not-in-map", fmt.Sprintf("%s: edge %q -> %q does not come from the reverse-call map (target %q)", where, e.From, e.To, op.Root))
-					} else if !anc[e.To] {
-						add("rcall/edge-off-chain", fmt.Sprintf("%s: edge %q -> %q is on no caller chain ending at %q", where, e.From, e.To, op.Root))
+						add("cli-call/no-report", where+": coca_reporter/call.dot was not written")
+						continue
 					}
-				}
-				for _, caller := range rev[op.Root] {
-					if caller != op.Root && !got[Edge{caller, op.Root}] {
-						add("rcall/direct-caller-missing", fmt.Sprintf("%s: direct caller %q of target %q has no edge", where, caller, op.Root))
+					judgeCall(where, dot, ref, s.Root, s.Lookup)
+				} else {
+					dot, ok := r.Files["coca_reporter/rcall.dot"]
+					mj, ok2 := r.Files["coca_reporter/rcallmap.json"]
+					if !ok || !ok2 {
+						add("cli-rcall/no-report", where+": rcall.dot or rcallmap.json was not written")
+						continue
 					}
-				}
-				if len(rev[op.Root]) > 0 {
-					out.Probes["rcall-target-has-callers"]++
-				}
-				dup := map[string]int{}
-				for _, c := range rev[op.Root] {
-					dup[c]++
-					if dup[c] == 2 {
-						out.Probes["rcall-caller-invokes-target-twice"]++
+					var m map[string][]string
+					if err := json.Unmarshal([]byte(mj), &m); err != nil {
+						add("cli-rcall/rcallmap-unreadable", fmt.Sprintf("%s: rcallmap.json: %v", where, err))
+						continue
 					}
+					judgeRcall(where, dot, m, ref, s.Root)
 				}
 			}
 		}
